@@ -2,10 +2,15 @@
    Accept.accept.  One verdict line per scenario:
      OK <family> <seed> <idx> states=<n> items=<n>
      REJECT <family> <seed> <idx> item=<i> line=<lineno> <what the model expected>
-     FAULT <family> <seed> <idx> <text>         (harness-side monitors)            *)
+     FAULT <family> <seed> <idx> <text>         (harness-side monitors)
+   Every scenario, racing ones included (which are not replayed: no windows, no release lines), is also judged
+   by the monitors of coq/srv/SrvMonitors.v (proved sound for every run of the model) on its environment lines
+   and its observation lines:
+     REJECT <family> <seed> <idx> monitor <name>                                    *)
 open Common
 module M = Model.SrvModel
 module A = Model.Accept
+module Mon = Model.SrvMonitors
 module Msg = Model.Msg
 
 let hx = bytes_of_hexfield
@@ -158,15 +163,21 @@ let () =
   let obs = ref [] in
   let items = ref [] in
   let faults = ref [] in
+  let envs = ref [] in       (* environment labels of the scenario, reversed *)
+  let allobs = ref [] in     (* observations of the scenario, reversed *)
   let flush_cur () =
     (match !cur with
      | Some (f, ln) ->
        let os = List.rev !obs in
-       let it = (match f with
-           | "env" :: rest -> A.IEnv (parse_env rest, os)
-           | ["rel"; s] -> A.IRel (site_of s, os)
-           | _ -> failwith "bad cur") in
-       items := (it, ln) :: !items
+       (match f with
+        | "env" :: rest ->
+          (* a racing log may contain environment lines that are no label of the model (basectx): they are no
+             input of the monitors either *)
+          (match (try Some (parse_env rest) with Failure _ when !policy = "race" -> None) with
+           | Some lb -> envs := lb :: !envs; items := (A.IEnv (lb, os), ln) :: !items
+           | None -> ())
+        | ["rel"; s] -> items := (A.IRel (site_of s, os), ln) :: !items
+        | _ -> failwith "bad cur")
      | None -> ());
     cur := None; obs := [] in
   iter_lines stdin (fun ln l ->
@@ -175,12 +186,12 @@ let () =
       | ["cfg"; k; push; builtin; unblock; ms] ->
         cfg := Some (M.init (nat_of_int (int_of_string k)) (b01 push) (b01 builtin)
                        (List.map hx (if ms = "" then [] else split_on ',' ms)) (b01 unblock));
-        items := []; faults := []; cur := None; obs := []
+        items := []; faults := []; cur := None; obs := []; envs := []; allobs := []
       | "scenario" :: fam :: seed :: idx :: rest ->
         hdr := String.concat " " [fam; seed; idx];
         policy := (match rest with p :: _ -> p | [] -> "")
       | "env" :: _ | "rel" :: _ -> flush_cur (); cur := Some (f, ln)
-      | "o" :: rest -> obs := parse_obs rest :: !obs
+      | "o" :: rest -> let o = parse_obs rest in obs := o :: !obs; allobs := o :: !allobs
       | ["parked"; p] ->
         flush_cur ();
         let cnt = if p = "-" then [] else
@@ -202,15 +213,37 @@ let () =
         parse_diffs := [];
         let amb = !ambiguous in
         ambiguous := false;
+        (* the proved monitors, on every scenario *)
+        let env = List.rev !envs and os = List.rev !allobs in
+        let mons =
+          [ ("mon_start_once", true, Mon.mon_start_once);
+            ("mon_start_distinct", Mon.unique_params env, Mon.mon_start_distinct);
+            ("mon_gate_after_start", true, Mon.mon_gate_after_start);
+            ("mon_barrier", Mon.unique_params env, Mon.mon_barrier);
+            ("mon_reply_once", true, Mon.mon_reply_once) ] in
+        let nmon = ref 0 in
+        let mon_rejected = ref false in
+        List.iter (fun (name, hyp, m) ->
+            if hyp then begin
+              incr nmon;
+              if not (m env os) then begin
+                mon_rejected := true;
+                Printf.printf "REJECT %s monitor %s\n" !hdr name
+              end
+            end) mons;
         (match !cfg with
-         | _ when amb -> Printf.printf "OK %s skipped: a member with several defects (any of them may be reported)\n" !hdr
+         | _ when amb ->
+           if not !mon_rejected then
+             Printf.printf "OK %s skipped: a member with several defects (any of them may be reported) monitors=%d\n" !hdr !nmon
          | _ when !policy = "race" ->
            (* racing mode has no windows: the log is judged by the property monitors only *)
-           Printf.printf "OK %s race-mode (monitors only)\n" !hdr
+           if not !mon_rejected then Printf.printf "OK %s skipped racing-log (monitors only) monitors=%d\n" !hdr !nmon
          | None -> Printf.printf "BADLOG %s no cfg\n" !hdr
          | Some s0 ->
            (match A.accept !mask [s0] (List.map fst its) Model.Datatypes.O with
-            | A.Accepted (n, _) -> Printf.printf "OK %s states=%d items=%d\n" !hdr (int_of_nat n) (List.length its)
+            | A.Accepted (n, _) ->
+              if not !mon_rejected then
+                Printf.printf "OK %s states=%d items=%d monitors=%d\n" !hdr (int_of_nat n) (List.length its) !nmon
             | A.Rejected (i, exp) ->
               let i = int_of_nat i in
               let (it, ln) = List.nth its i in
